@@ -56,10 +56,10 @@ func switchReturnLits(info *types.Info, fd *ast.FuncDecl) (tab map[string]string
 }
 
 func checkC20(c *Ctx) {
-	c.Rule("R20.1", "String / CapitalString / unmarshalText tables agree for every level; only documented aliases", 25)
-	c.Rule("R20.2", "parsing never partially updates: stores only in matching arms; exact then ToLower; SetLevel/returns only under err == nil", 8)
-	c.Rule("R20.3", "HTTP handler: single SetLevel under PUT ∧ decode ok; 4xx before every error body; level read after store; decoders reject missing values", 12)
-	c.Rule("R20.4", "LevelFlag registers the variable it returns; Set parses, Get reads", 3)
+	c.Rule("R20.1", "String / CapitalString / unmarshalText tables agree for every level; only documented aliases", 16)
+	c.Rule("R20.2", "parsing never partially updates: stores only in matching arms; exact then ToLower; SetLevel/returns only under err == nil", 6)
+	c.Rule("R20.3", "HTTP handler: single SetLevel under PUT ∧ decode ok; 4xx before every error body; level read after store; decoders reject missing values", 9)
+	c.Rule("R20.4", "LevelFlag registers the variable it returns; Set parses, Get reads", 2)
 
 	lvNamed := c.Named(CorePath, "Level")
 	strFn := c.Method(CorePath, "Level", "String")
